@@ -60,17 +60,27 @@ func decodeLeafFn(v interface{}) Leaf {
 
 func decodeListFn(v []interface{}, l ListBuilder) {
 	for _, item := range v {
+		if item == nil {
+			l.Append(nilLeaf)
+			continue
+		}
+		if m, ok := item.(map[string]interface{}); ok {
+			l.Append(DefaultNodeDecoderFn(m))
+			continue
+		}
+		if s, ok := item.([]interface{}); ok {
+			list := &listBuilderImpl{}
+			decodeListFn(s, list)
+			l.Append(list)
+			continue
+		}
 		t := reflect.ValueOf(item)
 		switch t.Kind() {
-		case reflect.Map:
-			l.Append(DefaultNodeDecoderFn(item.(map[string]interface{})))
-		case reflect.Slice, reflect.Array:
-			list := &listBuilderImpl{}
-			decodeListFn(item.([]interface{}), list)
-			l.Append(list)
 		case reflect.Float32, reflect.Float64, reflect.String, reflect.Bool,
 			reflect.Int, reflect.Int8, reflect.Int16, reflect.Int32, reflect.Int64,
 			reflect.Uint, reflect.Uint8, reflect.Uint16, reflect.Uint32, reflect.Uint64:
+			l.Append(decodeLeafFn(item))
+		default:
 			l.Append(decodeLeafFn(item))
 		}
 	}
@@ -84,13 +94,22 @@ func decodeContainerFn(current *map[string]interface{}, parent ContainerBuilder)
 			t := reflect.ValueOf(v)
 			switch t.Kind() {
 			case reflect.Map:
-				ref := v.(map[string]interface{})
-				decodeContainerFn(&ref, parent.AddContainer(k))
+				if ref, ok := v.(map[string]interface{}); ok {
+					decodeContainerFn(&ref, parent.AddContainer(k))
+				} else {
+					parent.AddValue(k, decodeLeafFn(v))
+				}
 			case reflect.Slice, reflect.Array:
-				decodeListFn(v.([]interface{}), parent.AddList(k))
+				if s, ok := v.([]interface{}); ok {
+					decodeListFn(s, parent.AddList(k))
+				} else {
+					parent.AddValue(k, decodeLeafFn(v))
+				}
 			case reflect.Float32, reflect.Float64, reflect.String, reflect.Bool,
 				reflect.Int, reflect.Int8, reflect.Int16, reflect.Int32, reflect.Int64,
 				reflect.Uint, reflect.Uint8, reflect.Uint16, reflect.Uint32, reflect.Uint64:
+				parent.AddValue(k, decodeLeafFn(v))
+			default:
 				parent.AddValue(k, decodeLeafFn(v))
 			}
 		}
